@@ -959,8 +959,24 @@ func constPar1(w *World, r *Report) {
 			continue
 		}
 		found := ""
-		for _, c := range callInstrs(fn) {
-			if f := c.Common().StaticCallee(); f == nil || f.String() != "crypto/md5.Sum" {
+		var hashCalls []ssa.CallInstruction
+		for _, rf := range region(fn) {
+			hashCalls = append(hashCalls, callInstrs(rf)...)
+		}
+		for _, c := range hashCalls {
+			isSum := false
+			if f := c.Common().StaticCallee(); f != nil && f.String() == "crypto/md5.Sum" {
+				isSum = true
+			}
+			// the streaming form: a Write on a hash made by md5.New()
+			if c.Common().IsInvoke() && c.Common().Method.Name() == "Write" {
+				if nc, ok := c.Common().Value.(*ssa.Call); ok {
+					if f := nc.Call.StaticCallee(); f != nil && f.String() == "crypto/md5.New" {
+						isSum = true
+					}
+				}
+			}
+			if !isSum || len(c.Common().Args) == 0 {
 				continue
 			}
 			backSlice(c.Common().Args[0], func(v ssa.Value) bool {
